@@ -56,6 +56,9 @@ class Exec:
         self.sinks: list[Sink] = []
         self.maps: list[tuple] = []  # (term, node)
         self.ctors: list[str] = []
+        self._rets: list[list] = []  # return alternatives of the helper being evaluated
+        self._outer: list[Formula] = []  # path conditions of the enclosing evaluations
+        self._stack: list[str] = []
 
     # ------------------------------------------------------------------ terms
     def terms(self, e: ast.expr, env: dict, depth: int = 0) -> list:
@@ -106,6 +109,9 @@ class Exec:
                 return self.terms(e.args[0], env, depth + 1)  # a copy: same elements, same None-ness (tuple(None) raises)
             if isinstance(e.func, ast.Name) and e.func.id in ("tuple", "list") and not e.args:
                 return [(TRUE, ("const", ()))]
+            got = self.call_terms(e, env, depth)
+            if got is not None:
+                return got
             return [(TRUE, ("other", norm(e, 80)))]
         if isinstance(e, (ast.ListComp, ast.GeneratorExp)):
             m = map_of(e)
@@ -144,6 +150,58 @@ class Exec:
             return kws[param]
         i = names.index(param)
         return args[i] if i < len(args) else None
+
+    def call_terms(self, e: ast.Call, env: dict, depth: int):
+        """Guarded alternatives of the value returned by a repo helper that the view left as a call (evaluated on its own view)."""
+        try:
+            cs, how = self.T.callees(self._ctx(e), self._orig(e), byname_fallback=False)
+        except Exception:  # noqa: BLE001
+            return None
+        cs = [c for c in cs if not c.is_abstract]
+        if len(cs) != 1 or how != "repo" or len(self._stack) > 4 or cs[0].fq in self._stack:
+            return None
+        h = cs[0]
+        if not _allow(self.v, h) or isinstance(h.node, ast.Lambda) or h.node.args.vararg or h.node.args.kwarg:
+            return None
+        if any(isinstance(n, (ast.Yield, ast.YieldFrom)) for n in ast.walk(h.node)):
+            return None
+        names = list(h.param_names)
+        if h.cls is not None and h.is_classmethod:
+            names = names[1:]
+        if len(e.args) > len(names) or any(isinstance(a, ast.Starred) for a in e.args) or any(k.arg is None for k in e.keywords):
+            return None
+        inner: dict = {}
+        for n, a in zip(names, e.args):
+            inner[n] = self.terms(a, env, depth + 1)
+        for k in e.keywords:
+            if k.arg not in names:
+                return None
+            inner[k.arg] = self.terms(k.value, env, depth + 1)
+        a = h.node.args
+        pos_all = [*a.posonlyargs, *a.args]
+        for p_, d in zip(pos_all[len(pos_all) - len(a.defaults):], a.defaults):
+            inner.setdefault(p_.arg, self.terms(d, {}, depth + 1))
+        for p_, d in zip(a.kwonlyargs, a.kw_defaults):
+            if d is not None:
+                inner.setdefault(p_.arg, self.terms(d, {}, depth + 1))
+        if any(n not in inner for n in names):
+            return None
+        hv = inline_view(self.repo, h, self.T, allow=_allow, max_depth=4)
+        self._stack.append(h.fq)
+        self._rets.append([])
+        saved_params = self.params
+        self.params = []
+        try:
+            self.run(hv.node.body, inner, TRUE)
+            rets = self._rets[-1]
+        finally:
+            self._rets.pop()
+            self._stack.pop()
+            self.params = saved_params
+        out = []
+        for pc, alts in rets:
+            out += [(f_and([pc, g]), t) for g, t in alts]
+        return out or [(TRUE, ("const", None))]
 
     def _orig(self, e: ast.AST) -> ast.AST:
         src = getattr(e, "_src", None)
@@ -229,7 +287,7 @@ class Exec:
                     self.ctors.append(ci.name)
                 if ci is not None and (ci is self.scan_cls or self.repo.is_subclass(ci, self.scan_cls.fq)):
                     for alts in self._patterns_of(n, env):
-                        self.sinks.append(Sink(pc, alts, n))
+                        self.sinks.append(Sink(f_and([*self._outer, pc]), alts, n))
             for c in ast.iter_child_nodes(n):
                 if isinstance(c, (ast.stmt,)) and c is not node:
                     continue
@@ -371,6 +429,8 @@ class Exec:
             elif isinstance(s, ast.Return):
                 if s.value is not None:
                     self.look(s.value, env, pc)
+                if self._rets:
+                    self._rets[-1].append((pc, self.terms(s.value, env) if s.value is not None else [(TRUE, ("const", None))]))
                 return env, pc, True
             elif isinstance(s, ast.Expr):
                 self.look(s.value, env, pc)
@@ -494,7 +554,7 @@ def run(repo: Repo, res: Result, rule: str, scan_cls: ClassInfo | None, filter_c
                     pass
                 else:
                     regex_ok, regex_detail = False, f"with only `{REGEX}` given the scan receives {show_term(t)} instead of the user's regular expressions"
-    if not seen_glob:
+    if not seen_glob and not undecided:
         conv_ok, conv_detail = False, f"no path on which `{GLOB}` is non-empty reaches the scan: the glob patterns are ignored"
     if undecided and conv_ok and none_ok and regex_ok:
         res.undecide(rule, base + "::patterns handed to the scan", undecided, w)
